@@ -91,7 +91,6 @@ def setup_shard(ctx):
     from cylc.flow.graph_parser import GraphParser
     from cylc.flow.graphnode import GraphNodeParser
     from cylc.flow.cycling.loader import get_point
-    import cylc.flow.flags
     import logging
     logging.getLogger('cylc').setLevel(logging.CRITICAL)
     _real.update(
